@@ -226,3 +226,15 @@ CHECKS["C17"]["text"] += " One connection used for session-less commands, discov
 CHECKS["C18"]["text"] += " A first preference refused with status 11h; a retry while the 32-bit sequence counter wraps."
 CHECKS["C19"]["text"] += " The goroutines' passwords are sub-slices of one shared credentials buffer."
 CHECKS["C20"]["text"] += " Durations up to ten years and the largest time.Duration values saturate at 63 days."
+# round 6
+CHECKS["C01"]["text"] += " A session goes on after the replies to two of its commands were lost."
+CHECKS["C02"]["text"] += " Handshake payloads in a wrapper that claims authentication and carries a junk AuthCode."
+CHECKS["C04"]["text"] += " Whole-block pads of one repeated value; correctly signed replies for the byte-reversed, rotated, neighbouring, all-ones and BMC-side session ID."
+CHECKS["C07"]["text"] += " Normal completion code with a body cut to every length below the mandatory part, through session-less and in-session SendCommand."
+CHECKS["C09"]["text"] += " An RMCP acknowledgement instead of a reply (also over the real socket); a read failing with EHOSTUNREACH instead of a timeout."
+CHECKS["C10"]["text"] += " An RMCP acknowledgement instead of a reply; a read failing with EHOSTUNREACH instead of a timeout (inside a session: one transmission, an error)."
+CHECKS["C11"]["text"] += " Calls with a context that is cancelled or past its deadline: a nil error must stand for a delivered response."
+CHECKS["C12"]["text"] += " NewSession against every advertised set; replies are windows into one reused receive buffer."
+CHECKS["C14"]["text"] += " Timestamps reaching FFFFFFFFh; reserved bit 5 of the ID string type/length byte."
+CHECKS["C16"]["text"] += " Error codes C9/C1/CB/D4/FF from one standard entity while the others have sensors."
+CHECKS["C20"]["text"] += " Decoded strings stay put when their input buffer is overwritten."
